@@ -132,4 +132,111 @@ example :
 example : (extract (inject [⟨traceparentKey, some [0]⟩, ⟨traceparentKey, none⟩] [5] [6])) = ([5], [6]) := by
   simp [extract, inject, cset, cget, Hdr.str, traceparentKey, tracestateKey]
 
+/-! ### Records of a fetched batch: a carrier operation on one record is an operation on that record only -/
+
+/-- NO OTHER HEADER CHANGES, across records: a `Set` through a carrier on record `i` of a batch rewrites
+record `i` exactly as `Set` does and leaves the header list of EVERY other record, and the number of
+records, as they were. (Immediate in the model, where records are independent values — which is the
+specification; that the Go slices handed out by the fetch decoder do not alias is what the differential run
+over really fetched records checks against this.) -/
+theorem set_on_one_record_leaves_other_records_unchanged (b : Batch) (i : Nat) (k v : Bytes) :
+    (bset b i k v).length = b.length ∧
+    (bset b i k v)[i]? = (b[i]?).map (fun h => cset h k v) ∧
+    ∀ j, j ≠ i → (bset b i k v)[j]? = b[j]? :=
+  ⟨bmod_length _ b i, bmod_get_self _ b i, fun j hj => bmod_get_other _ b i j hj⟩
+
+/-- The batch Spec evaluated by the driver on the implementation's dumps holds of the model for every batch,
+every record index in range and every `Set`. -/
+theorem batch_set_satisfies_spec (b : Batch) (i : Nat) (k v : Bytes) (hi : i < b.length) :
+    specBSet (bobs b) i k v (bobs (bset b i k v)) (cget ((bset b i k v)[i]?.getD []) k) = true := by
+  obtain ⟨h, hh⟩ : ∃ h, b[i]? = some h := ⟨b[i], by simp [hi]⟩
+  have hs : (bset b i k v)[i]? = some (cset h k v) := by
+    rw [(set_on_one_record_leaves_other_records_unchanged b i k v).2.1, hh]; rfl
+  simp only [specBSet, Bool.and_eq_true]
+  refine ⟨othersUntouched_bmod _ b i, ?_⟩
+  simp only [bobs, List.getElem?_map, hh, hs, Option.map_some, Option.getD_some]
+  have := set_satisfies_spec h k v
+  simpa [specSet, obs, robs] using this
+
+/-- The producer-side hook on one record of a fetched batch: the other records are untouched, and on the
+record itself the application headers are intact, at most the two propagation fields are added, and
+`Get("traceparent")` is the injected value. -/
+theorem batch_inject_satisfies_spec (b : Batch) (i : Nat) (tp ts : Bytes) (hi : i < b.length) :
+    specBInj (bobs b) i tp (bobs (binj b i tp ts)) (cget ((binj b i tp ts)[i]?.getD []) traceparentKey) = true := by
+  obtain ⟨h, hh⟩ : ∃ h, b[i]? = some h := ⟨b[i], by simp [hi]⟩
+  have hs : (binj b i tp ts)[i]? = some (inject h tp ts) := by
+    unfold binj; rw [bmod_get_self, hh]; rfl
+  simp only [specBInj, Bool.and_eq_true]
+  refine ⟨othersUntouched_bmod _ b i, ?_⟩
+  simp only [bobs, List.getElem?_map, hh, hs, Option.map_some, Option.getD_some]
+  have hp : isPropKey traceparentKey = true := by simp [isPropKey]
+  have hq : isPropKey tracestateKey = true := by simp [isPropKey]
+  have happ : appHdrs (inject h tp ts) = appHdrs h := by
+    unfold inject
+    rw [appHdrs_set_prop _ _ _ hp]
+    split
+    · rfl
+    · exact appHdrs_set_prop _ _ _ hq
+  have hlen : h.length ≤ (inject h tp ts).length ∧ (inject h tp ts).length ≤ h.length + 2 := by
+    unfold inject
+    split
+    · have := length_set h traceparentKey tp; omega
+    · have h1 := length_set h tracestateKey ts
+      have h2 := length_set (cset h tracestateKey ts) traceparentKey tp
+      omega
+  have hget : cget (inject h tp ts) traceparentKey = tp := by unfold inject; exact get_set_same _ _ _
+  simp [robs, obs, specKeys, specForward, keys_eq_map, happ, hlen.1, hlen.2, hget]
+
+/-- A bridge forwards the records of a fetched batch in ANY order (any sequence of injections, records
+visited repeatedly or not at all): each record ends up with exactly the injections addressed to it, applied
+in order to its own headers — nothing done to another record shows. -/
+theorem injections_act_per_record (b : Batch) (ops : List (Nat × Bytes × Bytes)) (j : Nat) :
+    (binjAll b ops)[j]? =
+      (b[j]?).map (fun h => (ops.filter (fun o => o.1 == j)).foldl (fun acc o => inject acc o.2.1 o.2.2) h) := by
+  induction ops generalizing b with
+  | nil => simp [binjAll]
+  | cons o ops ih =>
+    have ih' := ih (binj b o.1 o.2.1 o.2.2)
+    simp only [binjAll, List.foldl_cons] at ih' ⊢
+    rw [ih']
+    by_cases hj : o.1 = j
+    · subst hj
+      simp only [binj, bmod_get_self, List.filter_cons, beq_self_eq_true, if_true, List.foldl_cons, Option.map_map]
+      rfl
+    · have hne : j ≠ o.1 := fun h => hj h.symm
+      have hb : (o.1 == j) = false := by simp [hj]
+      simp only [binj, bmod_get_other _ b o.1 j hne, List.filter_cons, hb]
+      rfl
+
+/-- …therefore the trace context the sink extracts from a forwarded record is the one the bridge's hook
+injected into THAT record last, whatever was injected into the other records of the batch and in whatever
+order. -/
+theorem forwarded_record_extracts_its_own_context (b : Batch) (pre post : List (Nat × Bytes × Bytes))
+    (j : Nat) (tp ts : Bytes) (h : List Hdr) (hj : b[j]? = some h) (hpost : ∀ o ∈ post, o.1 ≠ j) :
+    ∃ h', (binjAll b (pre ++ (j, tp, ts) :: post))[j]? = some h' ∧ (extract h').1 = tp ∧ (ts ≠ [] → (extract h').2 = ts) := by
+  rw [injections_act_per_record, hj]
+  have hf : post.filter (fun o => o.1 == j) = [] := by
+    apply List.filter_eq_nil_iff.mpr
+    intro o ho; simp [hpost o ho]
+  simp only [Option.map_some, List.filter_append, List.filter_cons, beq_self_eq_true, if_true, hf,
+    List.foldl_append, List.foldl_cons, List.foldl_nil]
+  refine ⟨_, rfl, ?_, ?_⟩
+  · exact (trace_context_round_trip _ tp ts).1
+  · exact (trace_context_round_trip _ tp ts).2.1
+
+/-! Non-vacuity: a batch of three header-bearing records, a Set of a new key on the middle one, and a bridge
+that forwards back to front. -/
+example :
+    let b : Batch := [[⟨[1], some [9]⟩], [⟨[1], some [8]⟩], [⟨[1], some [7]⟩, ⟨[2], none⟩]]
+    bset b 1 [3] [5] = [[⟨[1], some [9]⟩], [⟨[1], some [8]⟩, ⟨[3], some [5]⟩], [⟨[1], some [7]⟩, ⟨[2], none⟩]]
+      ∧ specBSet (bobs b) 1 [3] [5] (bobs (bset b 1 [3] [5])) [5] = true
+      ∧ othersUntouched 1 (bobs b) (bobs [[⟨[1], some [9]⟩], [⟨[1], some [8]⟩, ⟨[3], some [5]⟩], [⟨[3], some [5]⟩, ⟨[2], none⟩]]) = false := by
+  decide
+
+example :
+    let b : Batch := [[⟨[1], some [9]⟩], [⟨[1], some [8]⟩]]
+    ((binjAll b [(1, [5], [6]), (0, [7], [])])[0]?.map extract, (binjAll b [(1, [5], [6]), (0, [7], [])])[1]?.map extract)
+      = (some ([7], []), some ([5], [6])) := by
+  decide
+
 end Props.C37
